@@ -755,7 +755,9 @@ def structural_hash(obj: object) -> bytes:
 
 class TOMLDecodeErrorWithSourceInfo(tomli.TOMLDecodeError):
     def __init__(self, message: str, lineno: int) -> None:
-        super().__init__(message)
+        # Do not go through tomli.TOMLDecodeError.__init__: its signature differs
+        # between tomli releases, and compiled releases reject subclass instances.
+        ValueError.__init__(self, message)
         self.lineno = lineno
 
 
